@@ -580,4 +580,137 @@ def _conditional(f, st, lp):
     return False
 
 
-RULES = [rule_order, rule_pair, rule_multpair, rule_apply, rule_chunkkey, rule_combine, rule_copy, rule_cover, rule_freshchunk]
+def rule_radix(ctx):
+    """'Slice numbers 0..nslices-1 correspond one-to-one to the combinations of sliced values' is a mixed-radix
+    number system: the stride of a position is the product of the recorded sizes of all later positions
+    (`get_slice_strides`), the digit of a position is the slice number floor-divided by its stride and the
+    remainder is carried on (`slice_key`); a projected index consumes no digit."""
+    r = RuleResult("C06-RADIX", "slice numbers are decoded as a mixed-radix number over the table", 3)
+    m = ctx.p.module(C.CORE)
+    f = ctx.p.func(C.CORE, "get_slice_strides")
+    k = ctx.key(f, "C06-RADIX", "strides")
+    probs = []
+    loops = [n for n in f.node.body if isinstance(n, ast.For)]
+    inits = [n for n in f.node.body if isinstance(n, ast.Assign) and isinstance(n.value, ast.BinOp)
+             and isinstance(n.value.op, ast.Mult) and isinstance(n.value.left, ast.List)]
+    if not loops or not inits:
+        raise AnalysisError("get_slice_strides: initial list / recurrence loop not recognised")
+    ones = inits[0].value.left.elts
+    if not (len(ones) == 1 and isinstance(ones[0], ast.Constant) and ones[0].value == 1):
+        probs.append("the stride list does not start as all ones (the last position has stride 1)")
+    lp = loops[0]
+    nname = None
+    for n in f.node.body:
+        if isinstance(n, ast.Assign) and isinstance(n.value, ast.Call) and dotted(n.value.func) == "len":
+            nname = n.targets[0].id
+    if not (isinstance(lp.iter, ast.Call) and dotted(lp.iter.func) == "range" and nname and isinstance(lp.target, ast.Name)):
+        raise AnalysisError("get_slice_strides: loop range not recognised")
+    for nn in (1, 2, 3, 5):
+        try:
+            got = list(range(*[_pe(a, {nname: nn}) for a in lp.iter.args]))
+        except _Unknown as e:
+            raise AnalysisError(f"get_slice_strides: {e}")
+        if got != list(range(nn - 2, -1, -1)):
+            probs.append(f"for {nn} sliced indices the recurrence visits positions {got}, expected {list(range(nn - 2, -1, -1))}")
+            break
+    st = [n for n in lp.body if isinstance(n, ast.Assign) and isinstance(n.targets[0], ast.Subscript)]
+    iv = lp.target.id
+    if len(st) != 1:
+        probs.append("the recurrence is not a single store")
+    else:
+        tgt, val = st[0].targets[0], st[0].value
+        ok_t = C.unparse(tgt.slice) == iv
+        ok_v = isinstance(val, ast.BinOp) and isinstance(val.op, ast.Mult)
+        if ok_v:
+            parts = [C.unparse(val.left).replace(" ", ""), C.unparse(val.right).replace(" ", "")]
+            lst = dotted(tgt.value)
+            want_a = f"{lst}[{iv}+1]"
+            has_next_stride = want_a in parts
+            other = [p_ for p_ in parts if p_ != want_a]
+            has_next_size = bool(other) and other[0].endswith(f"[{iv}+1].size")
+            ok_v = has_next_stride and has_next_size
+        if not (ok_t and ok_v):
+            probs.append(f"`{C.unparse(st[0], 70)}`: the stride of position i must be stride[i + 1] times the *recorded size* of "
+                         f"position i + 1")
+    if probs:
+        r.violation(k, f.loc, "; ".join(probs))
+    else:
+        r.ok(k, f.loc, "stride[last] = 1, stride[i] = stride[i + 1] * size[i + 1] for i = n - 2 .. 0")
+    tc = tree_class(ctx)
+    sk = tc.lookup("slice_key")
+    C.require(sk is not None, "slice_key not found")
+    loops = [n for n in sk.node.body if isinstance(n, ast.For)]
+    C.require(loops, "slice_key: loop over the table not found")
+    lp = loops[0]
+    num = sk.node.args.args[1].arg
+    tg = lp.target
+    if not (isinstance(tg, ast.Tuple) and len(tg.elts) == 2 and isinstance(tg.elts[0], ast.Tuple)
+            and len(tg.elts[0].elts) == 2 and all(isinstance(x, ast.Name) for x in (*tg.elts[0].elts, tg.elts[1]))):
+        # another pairing of table and strides: [C06-APPLY] decides whether it is aligned; digits not decided here
+        for d_ in ("digit", "projected"):
+            r.exempt(ctx.key(sk, "C06-RADIX", d_), C.loc(sk, lp), "loop over the table is not `(index, info), stride in zip(...)`: "
+                     "not decided by this rule (see C06-APPLY)")
+        return r
+    indn, infon, striden = tg.elts[0].elts[0].id, tg.elts[0].elts[1].id, tg.elts[1].id
+    br = [n for n in lp.body if isinstance(n, ast.If) and "project" in C.unparse(n.test)]
+    C.require(br, "slice_key: projected / sliced branches not found")
+    t = br[0].test
+    none_true = isinstance(t, ast.Compare) and isinstance(t.ops[0], ast.Is) and C.unparse(t.comparators[0]) == "None"
+    none_false = isinstance(t, ast.Compare) and isinstance(t.ops[0], ast.IsNot) and C.unparse(t.comparators[0]) == "None"
+    C.require(none_true or none_false, "slice_key: test of the projection not recognised")
+    sliced, projected = (br[0].body, br[0].orelse) if none_true else (br[0].orelse, br[0].body)
+    k = ctx.key(sk, "C06-RADIX", "digit")
+    probs = []
+    digit = rem = None
+    for i_, stn in enumerate(sliced):
+        if isinstance(stn, ast.Assign) and isinstance(stn.targets[0], ast.Subscript) and C.unparse(stn.targets[0].slice) == indn:
+            v = stn.value
+            if isinstance(v, ast.BinOp) and isinstance(v.op, ast.FloorDiv) and dotted(v.left) == num and dotted(v.right) == striden:
+                digit = i_
+            else:
+                probs.append(f"the digit is `{C.unparse(v, 40)}`, expected `{num} // {striden}`")
+                digit = i_
+        if isinstance(stn, ast.AugAssign) and dotted(stn.target) == num:
+            if isinstance(stn.op, ast.Mod) and dotted(stn.value) == striden:
+                rem = i_
+            else:
+                probs.append(f"the slice number is carried on as `{C.unparse(stn, 40)}`, expected `{num} %= {striden}`")
+                rem = i_
+        if isinstance(stn, ast.Assign) and dotted(stn.targets[0]) == num:
+            v = stn.value
+            if isinstance(v, ast.BinOp) and isinstance(v.op, ast.Mod) and dotted(v.left) == num and dotted(v.right) == striden:
+                rem = i_
+            else:
+                probs.append(f"the slice number is carried on as `{C.unparse(stn, 40)}`")
+                rem = i_
+        if isinstance(stn, ast.Assign) and isinstance(stn.targets[0], ast.Tuple) and isinstance(stn.value, ast.Call) \
+                and dotted(stn.value.func) == "divmod" and [dotted(a) for a in stn.value.args] == [num, striden]:
+            digit = rem = i_
+    if digit is None:
+        probs.append("no digit is recorded for a sliced (not projected) index")
+    if rem is None:
+        probs.append("the remainder is not carried to the next position: every later digit is computed from the whole number")
+    if digit is not None and rem is not None and rem < digit:
+        probs.append("the remainder is taken before the digit is read")
+    if probs:
+        r.violation(k, C.loc(sk, br[0]), "; ".join(probs))
+    else:
+        r.ok(k, C.loc(sk, br[0]), f"digit = {num} // stride, then {num} %= stride")
+    k = ctx.key(sk, "C06-RADIX", "projected")
+    probs = []
+    val = [stn for stn in projected if isinstance(stn, ast.Assign) and isinstance(stn.targets[0], ast.Subscript)
+           and C.unparse(stn.targets[0].slice) == indn]
+    if len(val) != 1 or C.unparse(val[0].value) != f"{infon}.project":
+        probs.append("a projected index does not get its projected value")
+    if any((isinstance(stn, ast.AugAssign) and dotted(stn.target) == num) or
+           (isinstance(stn, ast.Assign) and dotted(stn.targets[0]) == num) for stn in projected):
+        probs.append("a projected index (recorded size 1) consumes part of the slice number")
+    if probs:
+        r.violation(k, C.loc(sk, br[0]), "; ".join(probs))
+    else:
+        r.ok(k, C.loc(sk, br[0]), "a projected index takes its fixed value and consumes no digit")
+    return r
+
+
+RULES = [rule_order, rule_pair, rule_multpair, rule_apply, rule_chunkkey, rule_combine, rule_copy, rule_cover, rule_freshchunk,
+         rule_radix]
